@@ -381,6 +381,9 @@ def skeletons(fx, rep, rule, name, sy, res):
                 problems.append("step %s consumed without checking its result" % kind)
         for f in attempts.get(len(chain), []):
             events.append(("no-" + describe(fx, sy, f)[0], describe(fx, sy, f)[1]))
+        # the blank-line skip after the record may be applied by the dispatcher instead of by each parser (it is idempotent)
+        if _DISPATCH_SKIPS.get(id(fx)) and (not events or events[-1] != ("skipnl", None)):
+            events.append(("skipnl", None))
         out.append((tuple(events), rec, idx_of, st))
     return out, problems
 
@@ -643,6 +646,38 @@ def all_scans_line_bounded(rep, rule, sks):
     return n
 
 
+_DISPATCH_SKIPS = {}
+
+
+def pair_struct_rw(fx):
+    """the dispatcher may return its (result, rest) pair as a small private struct instead of a tuple: a rewriter that reads
+    such a struct (and field accesses on the dispatcher's result) positionally, in declaration order; None if it is a tuple"""
+    recp = rp("parse_proguard_record")
+    b = fx.bodies.get(recp)
+    if not b:
+        return None
+    out_ty = (b.get("output") or "")
+    if out_ty.startswith("("):
+        return None
+    nm = out_ty.split("<")[0].split("::")[-1]
+    decl = None
+    for a_ in fx.all_adts("proguard"):
+        if a_["path"].split("::")[-1] == nm and a_["variants"] and len(a_["variants"][0]["fields"]) == 2:
+            decl = [f_["name"] for f_ in a_["variants"][0]["fields"]]
+    if not decl:
+        return None
+
+    def rw(t):
+        if t[0] == "adt" and t[1] == nm and len(t[3]) == 2:
+            d = dict(t[3])
+            if set(d) == set(decl):
+                return ("tuple", (d[decl[0]], d[decl[1]]))
+        if t[0] == "field" and t[2] in decl and t[1][0] == "call" and t[1][1] == recp:
+            return ("field", t[1], str(decl.index(t[2])))
+        return None
+    return rw
+
+
 # ---- dispatcher, iterator, try_parse (C05.1, C05.7, C06.2c/d, C06.4) ------------------------------------------------------------
 def check_dispatch(fx, rep, rule):
     use(fx)
@@ -656,7 +691,7 @@ def check_dispatch(fx, rep, rule):
     b0 = ("in", "bytes")
     cur = call(rp("consume_leading_newlines"), b0)
 
-    def ref(o):
+    def ref(o, skip_here=False):
         if o(("bool", call("core::slice::starts_with", cur, ("lit", "bytes", b"#")))):
             r = call(parsers["parse_proguard_header"], cur)
         elif o(("bool", call("core::slice::starts_with", cur, ("lit", "bytes", b"    ")))):
@@ -665,11 +700,21 @@ def check_dispatch(fx, rep, rule):
             r = call(parsers["parse_proguard_class"], cur)
         if o(("is", r, "Ok")):
             t = mk_payload(r, "Ok", "0")
-            return ("tuple", (ok(mk_field(t, "0")), mk_field(t, "1")))
+            rest_ = mk_field(t, "1")
+            return ("tuple", (ok(mk_field(t, "0")), call(rp("consume_leading_newlines"), rest_) if skip_here else rest_))
         sl = call(rp("split_line"), cur)
         return ("tuple", (err(("adt", "ParseError", "ParseError", (("line", mk_field(sl, "0")), ("kind", ("adt", "ParseErrorKind", "ParseError",
                                                                                                      (("0", ("lit", "str", "line is not a valid proguard record")),)))))), mk_field(sl, "1")))
-    bad, n = fc.compare_paths(res, ref, lambda st, out: out[1])
+    prw = pair_struct_rw(fx)
+    oc = (lambda st, out: fc.rewrite(out[1], prw)) if prw else (lambda st, out: out[1])
+    bad, n = fc.compare_paths(res, ref, oc)
+    _DISPATCH_SKIPS[id(fx)] = False
+    if bad:
+        # variant: the dispatcher (not each record parser) skips the line terminator and blank lines behind an Ok record
+        bad2, n2 = fc.compare_paths(res, lambda o: ref(o, True), oc)
+        if not bad2:
+            bad = bad2
+            _DISPATCH_SKIPS[id(fx)] = True
     R1.report_cmp(rep, rule, "%s/dispatch" % rule, fx.bodies[p], res, bad,
                   "skip leading newlines; '#' -> header, four spaces -> member, else class; on Err: ParseError{line = split_line(line start).0}, rest = .1")
 
@@ -686,6 +731,15 @@ def check_iterator(fx, rep, rule):
     slf = ("in", "self")
     good = len(res) == 2
     desc = []
+    prw = pair_struct_rw(fx)
+    if prw:
+        res2 = []
+        for st, (k, v) in res:
+            st2 = st.copy()
+            st2.conds = tuple((fc.rewrite(a_, prw), p_) for a_, p_ in st.conds)
+            st2.effects = tuple(fc.rewrite(e_, prw) for e_ in st.effects)
+            res2.append((st2, (k, fc.rewrite(v, prw))))
+        res = res2
     for st, (k, v) in res:
         a = fc.assignment(st.conds)
         e = a.get(("empty", mk_field(slf, "slice")))
@@ -721,7 +775,8 @@ def check_try_parse(fx, rep, rule):
             return err(("adt", "ParseError", "ParseError", (("line", line), ("kind", ("adt", "ParseErrorKind", "ParseError",
                                                                                      (("0", ("lit", "str", "line is not a valid proguard record")),))))))
         return ok(mk_payload(mk_field(r, "0"), "Ok", "0"))
-    bad, n = fc.compare_paths(res, ref, lambda st, out: out[1])
+    prw = pair_struct_rw(fx)
+    bad, n = fc.compare_paths(res, ref, (lambda st, out: fc.rewrite(out[1], prw)) if prw else (lambda st, out: out[1]), rw=prw)
     R1.report_cmp(rep, rule, "%s/try_parse" % rule, fx.bodies[p], res, bad,
                   "(Err, _) -> Err; (Ok, rest) with bytes left -> Err{line: whole input}; else Ok(record)")
 
